@@ -629,6 +629,9 @@ theorem setW_good {a0 : A} {s : S} (h : Good a0 s) (w : Wire.W) : Good a0 (setW 
 theorem setLimit_good {a0 : A} {s : S} (h : Good a0 s) (n : Nat) : Good a0 (setLimit s n) := setW_good h _
 @[simp] theorem setLimit_cfg (s : S) (n : Nat) : (setLimit s n).cfg = s.cfg := rfl
 @[simp] theorem setLimit_c (s : S) (n : Nat) : (setLimit s n).c = s.c := rfl
+theorem armLimit_good {a0 : A} {s : S} (h : Good a0 s) : Good a0 (armLimit s) := setW_good h _
+@[simp] theorem armLimit_cfg (s : S) : (armLimit s).cfg = s.cfg := rfl
+@[simp] theorem armLimit_c (s : S) : (armLimit s).c = s.c := rfl
 
 theorem discardChunkN_keeps {a0 : A} {s : S} (h : Good a0 s) (sz : Option Nat) : Keeps a0 s (discardChunkN s sz) := by
   unfold discardChunkN
@@ -747,8 +750,8 @@ theorem bdatFail_keeps {a0 : A} {s : S} (h : Good a0 s) (k left : Nat) (last : B
   generalize bdatFailReplies (setW s (discardN (wireFuel s.w) s.w left)) k last err = s2 at h1 ⊢
   have hcfg : s2.cfg = s.cfg := h1.2
   split
-  · exact ⟨setLimit_good (resetConn_good (closeConn_good h1.1).1).1 _, by simp [hcfg]⟩
-  · exact ⟨setLimit_good (resetConn_good h1.1).1 _, by simp [hcfg]⟩
+  · exact ⟨armLimit_good (resetConn_good (closeConn_good h1.1).1).1, by simp [hcfg]⟩
+  · exact ⟨armLimit_good (resetConn_good h1.1).1, by simp [hcfg]⟩
 
 theorem bdatFinal_keeps {a0 : A} {s : S} (h : Good a0 s) (k : Nat) : Keeps a0 s (bdatFinal s k).1 := by
   unfold bdatFinal
@@ -790,7 +793,7 @@ theorem bdatDone_keeps {a0 : A} {s : S} (h : Good a0 s) (k size : Nat) (last : B
     Keeps a0 s (bdatDone s k size last).1 := by
   unfold bdatDone
   simp only []
-  have h1 := setLimit_good (addBytesReceived_good h size) s.cfg.maxLine
+  have h1 := armLimit_good (addBytesReceived_good h size)
   split
   · exact ⟨reply_good h1 _ _ _, by simp⟩
   · have hk := bdatFinal_keeps h1 k
